@@ -358,6 +358,32 @@ func allocStores(a *ssa.Alloc) (stores []allocStore, escapes bool) {
 				}
 			}
 		case *ssa.UnOp, *ssa.DebugRef:
+		case *ssa.MakeClosure:
+			// captured by a closure that only reads it: the value at a load in this function is
+			// still decided by this function's stores
+			readOnly := false
+			if cf, ok := r.Fn.(*ssa.Function); ok {
+				for i, bnd := range r.Bindings {
+					if bnd != ssa.Value(a) || i >= len(cf.FreeVars) {
+						continue
+					}
+					readOnly = true
+					for _, fr := range *cf.FreeVars[i].Referrers() {
+						switch u := fr.(type) {
+						case *ssa.UnOp:
+							if u.Op != token.MUL {
+								readOnly = false
+							}
+						case *ssa.DebugRef:
+						default:
+							readOnly = false
+						}
+					}
+				}
+			}
+			if !readOnly {
+				escapes = true
+			}
 		default:
 			escapes = true
 		}
@@ -372,6 +398,11 @@ func latestDominating(cands []*ssa.Store, at ssa.Instruction) (*ssa.Store, bool)
 	for _, s := range cands {
 		if instrDominates(s, at) {
 			dom = append(dom, s)
+		} else if s.Block() == at.Block() {
+			// a store later in the same block reaches `at` only around a loop
+			if blockInLoop(s.Block()) {
+				return nil, false
+			}
 		} else if reaches(s.Block(), at.Block()) {
 			return nil, false
 		}
